@@ -358,6 +358,7 @@ fn base_graph_for_tables() -> (ModuleGraph, Vec<ModuleSpecifier>) {
     imports: vec![],
     kind: deno_graph::GraphKind::All,
     opts: Opts { skip_dynamic_deps: true, ..Default::default() },
+    ..Default::default()
   };
   let loader = ScriptedLoader::new(&w);
   let g = build_world(&w, &loader);
